@@ -195,7 +195,11 @@ class XMLDocParser:
 
             # Remember which parameters to ignore, if any
             for i in range(len(method_args_names), num_tot_params):
-                ignored_params.append(params[i].find("declname").text)
+                param_name = params[i].find("declname")
+                if param_name is None:
+                    param_name = params[i].find("defname")
+                if param_name is not None:
+                    ignored_params.append(param_name.text)
 
         return member_defs, ignored_params
 
